@@ -325,6 +325,11 @@ func init() {
 	externals[verifPkg+".SnapBool"] = externals[verifPkg+".SnapInts"]
 	externals[verifPkg+".SnapInt"] = externals[verifPkg+".SnapInts"]
 	externals[verifPkg+".SnapStr"] = externals[verifPkg+".SnapInts"]
+	externals[verifPkg+".HeapSize"] = func(fr *frame, args []value) value {
+		seen := map[*value]bool{}
+		seenSl := map[*value]int{}
+		return heapSize(args[0], seen, seenSl, 0)
+	}
 	externals[verifPkg+".SameCell"] = func(fr *frame, args []value) value {
 		// do two byte slices start at the same cell?
 		a, b := args[0].([]value), args[1].([]value)
@@ -514,3 +519,82 @@ func bitsConc(name string, v uint64, w int) int {
 }
 
 var _ = sort.Ints
+
+// heapSize counts the cells reachable from v (slice capacities included), a
+// deterministic stand-in for "heap held by this object graph".
+func heapSize(v value, seen map[*value]bool, seenSl map[*value]int, depth int) int {
+	if depth > 200 {
+		return 0
+	}
+	switch x := v.(type) {
+	case *value:
+		if x == nil || seen[x] {
+			return 0
+		}
+		seen[x] = true
+		return 1 + heapSize(*x, seen, seenSl, depth+1)
+	case []value:
+		c := cap(x)
+		if c == 0 {
+			return 0
+		}
+		full := x[:c]
+		key := &full[0]
+		if old, ok := seenSl[key]; ok && old >= c {
+			return 0
+		}
+		seenSl[key] = c
+		n := c
+		for i := range full {
+			switch full[i].(type) {
+			case *value, []value, structure, array, iface, map[value]value, *hashmap, *closure:
+				n += heapSize(full[i], seen, seenSl, depth+1)
+			}
+		}
+		return n
+	case structure:
+		n := 0
+		for _, f := range x {
+			n += heapSize(f, seen, seenSl, depth+1)
+		}
+		return n
+	case array:
+		n := 0
+		for _, f := range x {
+			switch f.(type) {
+			case *value, []value, structure, array, iface, map[value]value, *hashmap, *closure:
+				n += heapSize(f, seen, seenSl, depth+1)
+			}
+		}
+		return n
+	case iface:
+		return heapSize(x.v, seen, seenSl, depth+1)
+	case map[value]value:
+		n := len(x)
+		for _, e := range x {
+			n += heapSize(e, seen, seenSl, depth+1)
+		}
+		return n
+	case *hashmap:
+		if x == nil {
+			return 0
+		}
+		n := x.len()
+		for _, e := range x.entries() {
+			for ; e != nil; e = e.next {
+				n += heapSize(e.value, seen, seenSl, depth+1)
+			}
+		}
+		return n
+	case *closure:
+		if x == nil {
+			return 0
+		}
+		n := 0
+		for _, e := range x.Env {
+			n += heapSize(e, seen, seenSl, depth+1)
+		}
+		return n
+	}
+	return 0
+}
